@@ -155,6 +155,67 @@ func snoBody(gor, draws int, clock bool, restore bool, gens int) func() {
 	}
 }
 
+// exhaustion: more generators are created in one program than sno has partitions (65535). A
+// long-lived generator (the first one) stays in use; every generator created afterwards either
+// is refused or must not repeat an id of a generator that is still alive. The 65 000 throw-away
+// creations in between are not executed: creating a generator from defaults has one process-wide
+// effect, the partition counter, which the hook advances directly (a non-initial start state).
+// One sequential history per choice of how many throw-away generators came before.
+func exhaustionBody(extra int) func() {
+	return func() {
+		sno.VerifResetPartitions()
+		verifrt.FreezeClock(true)
+		ctx, cancel := context.WithCancel(context.Background())
+		defer cancel()
+		tr := tracing.NewTracer(ctx)
+		verifrt.Advance(time.Hour)
+		seen := map[string]string{}
+		draw := func(g id.IGenerator, who string) bool {
+			for i := 0; i < 3; i++ {
+				x := g.New().String()
+				if prev, ok := seen[x]; ok {
+					h.Fail("C20/sno/distinct-across-generators/partitions-exhausted", "identifier %q issued twice: by %s and by %s", x, prev, who)
+					return false
+				}
+				seen[x] = who
+			}
+			return true
+		}
+		// 1..3 long-lived generators, created first
+		var kept []id.IGenerator
+		nKept := 1 + verifrt.Choose(3)
+		for i := 0; i < nKept; i++ {
+			g, err := id.GetSno().NewIdGenerator(ctx, tr)
+			if err != nil {
+				h.Fail("C20/sno/new-generator", "NewIdGenerator: %v", err)
+				return
+			}
+			kept = append(kept, g)
+		}
+		// the pool is used up except for 0..2 partitions
+		left := uint32(verifrt.Choose(3))
+		sno.VerifSkipPartitions(65535 - uint32(nKept) - left)
+		created, refused := 0, 0
+		for n := 0; n < extra; n++ {
+			g, err := id.GetSno().NewIdGenerator(ctx, tr)
+			if err != nil {
+				refused++
+				continue
+			}
+			created++
+			if !draw(g, fmt.Sprintf("generator created as number %d", 65535-int(left)+n)) {
+				return
+			}
+			for i, k := range kept {
+				if !draw(k, fmt.Sprintf("long-lived generator #%d", i)) {
+					return
+				}
+			}
+		}
+		verifrt.Log("created %d refused %d distinct ids %d", created, refused, len(seen))
+	}
+}
+
 // engine: instance and flow ids observed in traces never repeat (default generator wiring).
 func engineBody(b *drv.Block) func() {
 	sc := c01.Scenario("C20", 0, b, 0)
@@ -193,6 +254,7 @@ func init() {
 		add("C20/sno/restore/g2x2", snoBody(2, 2, false, true, 1), d(2), 200, 4)
 		add("C20/sno/generators2/g1x2/clock", snoBody(1, 2, true, false, 2), d(2), 100, 2)
 		add("C20/sno/generators3/g1x1", snoBody(1, 1, false, false, 3), d(3), 50, 4)
+		add("C20/sno/partition-pool-exhausted/+8", exhaustionBody(8), d(1), 300, 1)
 		if thorough {
 			add("C20/sno/g2x3/clock", snoBody(2, 3, true, false, 1), d(2), 1000, 16)
 			add("C20/sno/g3x2", snoBody(3, 2, false, false, 1), d(3), 1000, 16)
